@@ -354,3 +354,62 @@ PROPS["C10"] = {
          "tv_timeout": 3000, "timeout": 7200},
     ],
 }
+
+# ------------------------------------------------------------------------------------------ C11
+import vlib as _v
+LIVE_CONSTS = {"MaxDials": 3, "FixAbortLeak": "TRUE", "KeepResyncOnAccept": "TRUE", "SyncingChoices": "<- AnySyncing",
+               "DialReasons": "<- TwoReasons"}
+LIVE_INV = ["NoTwoSessions", "SlotFreed", "NoResyncLost", "SimulExactlyOne", "NotFoundWhenNotSyncing"]
+
+
+def livesync_schedules(wdir, tier, seed, cov):
+    """TLC is the test generator: export schedules (hist) of LiveSync.tla behaviours that end quiescent."""
+    import os
+    out = os.path.join(wdir, "livesync-schedules.json")
+    open(out, "w").close()
+    c2 = dict(LIVE_CONSTS, MaxDials=2)
+    n1, r1 = _v.export_schedules("MCLiveSync", _v.cfg_text(consts=c2, invariants=["EmitSchedules"], view="view"), out,
+                                 workers=1, tag="C11-sched")
+    num = 1500 if tier == "quick" else 12000
+    n2, r2 = _v.export_schedules("MCLiveSync", _v.cfg_text(consts=LIVE_CONSTS, invariants=["EmitSchedules"], view="view"), out,
+                                 simulate=f"num={num}", seed=seed, depth=80, workers=4, limit=6000 if tier == "quick" else 40000,
+                                 tag="C11-sched")
+    n3 = 0
+    if tier == "thorough":
+        c4 = dict(LIVE_CONSTS, MaxDials=4, DialReasons="<- AllReasons")
+        n3, r3 = _v.export_schedules("MCLiveSync", _v.cfg_text(consts=c4, invariants=["EmitSchedules"], view="view"), out,
+                                     simulate="num=6000", seed=seed, depth=120, workers=4, limit=20000, tag="C11-sched")
+    cov["schedules_from_tlc"] = {"bfs_maxdials2": n1, "simulated_maxdials3": n2, "simulated_maxdials4": n3}
+    _v.log(f"[C11] schedules exported from TLC: {n1} (exhaustive, MaxDials=2) + {n2} (simulation, MaxDials=3) + {n3} (MaxDials=4)")
+    return out
+
+
+PROPS["C11"] = {
+    "level": "model_checking",
+    "rule": "model: all interleavings of <= 3 dials (new neighbour, sync report, direct join, resync) between two nodes with "
+            "request loss / delivery, accept or decline, lost or delivered abort replies, independent success or failure of the "
+            "two session ends and independent handling of the two task results, document synced at both or at one node; "
+            "implementation: TLC-generated schedules (all quiescent behaviours for 2 dials, simulated ones for 3-4 dials) are "
+            "replayed on two real LiveActors; slot, resync flag, accept decision and started dials of both nodes are validated "
+            "after every action and all invariants are evaluated on the validated trace",
+    "assumptions": ["a started dial is captured instead of connecting (hook H6); task results are synthesised as "
+                    "connect_and_sync / handle_connection produce them (C10 pins those)",
+                    "two nodes, one document; the node with the greater endpoint id is node 2 (both dial directions are explored)"],
+    "models": [
+        {"name": "livesync", "module": "MCLiveSync", "workers": 12, "timeout": 1800, "consts": LIVE_CONSTS,
+         "invariants": LIVE_INV, "view": "view"},
+        {"name": "livesync-all-reasons", "module": "MCLiveSync", "workers": 14, "timeout": 3000,
+         "consts": dict(LIVE_CONSTS, DialReasons="<- AllReasons"), "invariants": LIVE_INV, "view": "view", "tiers": ("thorough",)},
+    ],
+    "sensitivity": [
+        {"base": "livesync", "flip": {"FixAbortLeak": "FALSE"}},
+        {"base": "livesync", "flip": {"KeepResyncOnAccept": "FALSE"}},
+    ],
+    "drives": [
+        {"name": "livesync", "cmd": "livesync", "args": {}, "schedules_from": livesync_schedules,
+         "trace_module": "LiveSyncTrace", "spec": "TSpec",
+         "trace_consts": {"MaxDials": 1000, "FixAbortLeak": "TRUE", "KeepResyncOnAccept": "TRUE", "SyncingChoices": "{{}}",
+                          "DialReasons": "{}"},
+         "trace_invariants": LIVE_INV, "tv_timeout": 3000, "timeout": 7200},
+    ],
+}
